@@ -1,6 +1,7 @@
 import QlibcModel.Props.C18
 #print axioms Qlibc.Props.C18.md5_steps_eq_rfc
 #print axioms Qlibc.Props.C18.md5_frame_as_modelled
+#print axioms Qlibc.Props.C18.md5_count_update
 #print axioms Qlibc.Props.C18.md5_transform_eq_rfc
 #print axioms Qlibc.Props.C18.fnv_shift_add_eq_prime
 #print axioms Qlibc.Props.C18.md5_eq_rfc
